@@ -227,11 +227,14 @@ class ASTTypeBuilder:
             fields=[
                 self._build_field(field_node) for field_node in type_def.fields
             ],
+            # has to be lazy to support cyclic definition
             interfaces=(
-                [
-                    cast(InterfaceType, self.build_type(interface))
-                    for interface in type_def.interfaces
-                ]
+                (
+                    lambda: [
+                        cast(InterfaceType, self.build_type(interface))
+                        for interface in type_def.interfaces
+                    ]
+                )
                 if type_def.interfaces
                 else None
             ),
@@ -298,7 +301,8 @@ class ASTTypeBuilder:
         return UnionType(
             name=type_def.name.value,
             description=_desc(type_def),
-            types=[
+            # has to be lazy to support cyclic definition
+            types=lambda: [
                 cast(ObjectType, self.build_type(type_))
                 for type_ in type_def.types
             ],
@@ -393,33 +397,37 @@ class ASTTypeBuilder:
                 field_names.add(ext_field.name.value)
                 fields.append(self._extend_field(self._build_field(ext_field)))
 
-        interface_names = set(i.name for i in object_type.interfaces)
-        interfaces = [
-            cast(InterfaceType, self.extend_type(interface))
-            for interface in object_type.interfaces
-        ]
+        # has to be lazy to support cyclic definition
+        def _interfaces() -> List[InterfaceType]:
+            interface_names = set(i.name for i in object_type.interfaces)
+            interfaces = [
+                cast(InterfaceType, self.extend_type(interface))
+                for interface in object_type.interfaces
+            ]
 
-        for extension in extensions:
-            for ext_interface in extension.interfaces:
-                if ext_interface.name.value in interface_names:
-                    raise ExtensionError(
-                        'Interface "%s" already implemented for type "%s"'
-                        % (ext_interface.name.value, object_type.name),
-                        [ext_interface],
+            for extension in extensions:
+                for ext_interface in extension.interfaces:
+                    if ext_interface.name.value in interface_names:
+                        raise ExtensionError(
+                            'Interface "%s" already implemented for type "%s"'
+                            % (ext_interface.name.value, object_type.name),
+                            [ext_interface],
+                        )
+                    interface_names.add(ext_interface.name.value)
+                    interfaces.append(
+                        cast(
+                            InterfaceType,
+                            self.extend_type(self.build_type(ext_interface)),
+                        )
                     )
-                interface_names.add(ext_interface.name.value)
-                interfaces.append(
-                    cast(
-                        InterfaceType,
-                        self.extend_type(self.build_type(ext_interface)),
-                    )
-                )
+
+            return interfaces
 
         return ObjectType(
             name,
             description=object_type.description,
             fields=fields,
-            interfaces=interfaces,
+            interfaces=_interfaces,
             default_resolver=object_type.default_resolver,
             nodes=object_type.nodes + extensions,  # type: ignore
         )
@@ -494,30 +502,34 @@ class ASTTypeBuilder:
         name = union_type.name
         extensions = self._collect_extensions(name, _ast.UnionTypeExtension)
 
-        member_names = set(t.name for t in union_type.types)
-        member_types = [
-            cast(ObjectType, self.extend_type(t)) for t in union_type.types
-        ]
+        # has to be lazy to support cyclic definition
+        def _member_types() -> List[ObjectType]:
+            member_names = set(t.name for t in union_type.types)
+            member_types = [
+                cast(ObjectType, self.extend_type(t)) for t in union_type.types
+            ]
 
-        for extension_node in extensions:
-            for type_def in extension_node.types:
-                if type_def.name.value in member_names:
-                    raise ExtensionError(
-                        'Found duplicate member type "%s" when extending UnionType "%s"'
-                        % (type_def.name.value, name),
-                        [type_def],
+            for extension_node in extensions:
+                for type_def in extension_node.types:
+                    if type_def.name.value in member_names:
+                        raise ExtensionError(
+                            'Found duplicate member type "%s" when extending UnionType "%s"'
+                            % (type_def.name.value, name),
+                            [type_def],
+                        )
+                    member_types.append(
+                        cast(
+                            ObjectType, self.extend_type(self.build_type(type_def))
+                        )
                     )
-                member_types.append(
-                    cast(
-                        ObjectType, self.extend_type(self.build_type(type_def))
-                    )
-                )
-                member_names.add(type_def.name.value)
+                    member_names.add(type_def.name.value)
+
+            return member_types
 
         return UnionType(
             name,
             description=union_type.description,
-            types=member_types,
+            types=_member_types,
             resolve_type=union_type.resolve_type,
             nodes=union_type.nodes + extensions,  # type: ignore
         )
